@@ -2,7 +2,7 @@
 # try_seed.sh <patch.diff> <property id> [extra check args]: apply a seeded change to /repo, run the check, undo.
 P=$1; ID=$2; shift 2
 git -C /repo apply "$P" || exit 9
-cd /verif && ./check $ID "$@" > /tmp/try_seed.out 2>&1; rc=$?
+cd /verif && VERIF_EVIDENCE_DIR=/tmp/evid_seed VERIF_REPLAY_DIR=/tmp/replays_seed ./check $ID "$@" > /tmp/try_seed.out 2>&1; rc=$?
 git -C /repo checkout -- .
 grep -c "^VIOLATION" /tmp/try_seed.out | sed 's/^/violations: /'
 grep -E "^(VIOLATION|UNDECIDED|CHECKER|BASELINE)" /tmp/try_seed.out | cut -c1-250 | head -6
